@@ -233,6 +233,8 @@ def run_replay_job(job):
                 bad = None
                 if res.get("noquiesce"):
                     bad = ("noquiesce", {})
+                elif res.get("busy") and not base.get("busy"):
+                    bad = ("busy", {"pending": res["busy"]})
                 elif res["trees"] != base["trees"]:
                     bad = ("differs-from-prompt", res["trees"])
                 elif [a for a in res["artefacts"] if a not in base["artefacts"]]:
@@ -262,6 +264,8 @@ def run_job(job):
     def compare(name, res):
         if res.get("noquiesce"):
             return ("noquiesce", {})
+        if res.get("busy") and not base.get("busy"):
+            return ("busy", {"pending": res["busy"]})
         if res["trees"] != base["trees"]:
             return ("differs-from-prompt", res["trees"])
         if [a for a in res["artefacts"] if a not in base["artefacts"]]:
